@@ -1,6 +1,6 @@
 SPECIFICATION Spec
 CONSTANTS
-  Threshold = 1
+  Threshold = 255
   MaxRedirect = 65535
   MaxHeader = 255
   Deviations = {}
@@ -9,13 +9,14 @@ CONSTANTS
   NC = 2
   MaxBody = 3
   MaxPrefix = 2
-  SkipBytes = {0, 128}
+  SkipBytes = {0, 1, 128}
   Variants = {0}
   DimVals = {0, 3}
   MaxW = 2
   MaxH = 1
-  DomT = 1
-  PadK = 0
+  DomT = 2
+  PadK = 253
   Waive = {}
-INVARIANTS Idempotent SameFont SameChains Fits Closed MainLoopSame PlWellFormed
+CONSTRAINT FirstTripOnly
+INVARIANTS EmitCase
 CHECK_DEADLOCK FALSE
